@@ -15,12 +15,16 @@ def run (_tag : String) (kv : KV) : String :=
   let pc : PlugC := {
     grpc := kv.getD "pproto" "netrpc" = "grpc"
     sec := if kv.getD "psec" "none" = "static" then .static else .none
-    advMux := boolOf (kv.getD "padv" "1") }
-  match compose Facts.interop Facts.handshake hc pc with
+    advMux := boolOf (kv.getD "padv" "1")
+    noAuto := boolOf (kv.getD "pnoauto" "0") }
+  let v := if kv.getD "pproto" "netrpc" = "legacy" then composeLegacy Facts.interop Facts.handshake hc pc.sec
+           else compose Facts.interop Facts.handshake hc pc
+  match v with
   | .works => "works"
   | .startErr .mux => "starterr sentinel=mux"
   | .startErr _ => "starterr sentinel=none"
   | .firstUseErr => "firstuse"
   | .broken => "broken"
+  | .downgraded => "downgraded"
 
 end GoPlugin.Oracle.C14
